@@ -76,6 +76,8 @@ def run(runobj, rnd, prop, geoms, n_per_geom, nops=(40, 160), cfg="10001"):
     """geoms: list of (idsize, cap, inline). Reports violations itself. Returns number of histories compared."""
     model = vlib.need_model()
     total = 0
+    vlib.build_harnesses([("pool_h", dict(vlib.cfg_flags(cfg), ARDUINOJSON_SLOT_ID_SIZE=g[0], ARDUINOJSON_POOL_CAPACITY=g[1], ARDUINOJSON_INITIAL_POOL_COUNT=g[2]), {})
+                          for g in geoms])
     for g in geoms:
         defs = {"ARDUINOJSON_SLOT_ID_SIZE": g[0], "ARDUINOJSON_POOL_CAPACITY": g[1], "ARDUINOJSON_INITIAL_POOL_COUNT": g[2]}
         impl = vlib.need_harness("pool_h", cfg, defs)
